@@ -68,6 +68,59 @@ def ratio(tup, consts, k=1):
     return math.hypot(x, y) / math.sqrt(area)
 
 
+def _clip(subject, clipper):
+    """Sutherland-Hodgman clipping of a polygon by a convex polygon (both counter-clockwise)."""
+    out = list(subject)
+    n = len(clipper)
+    for i in range(n):
+        a, b = clipper[i], clipper[(i + 1) % n]
+        inp, out = out, []
+        if not inp:
+            break
+
+        def inside(p):
+            return (b[0] - a[0]) * (p[1] - a[1]) - (b[1] - a[1]) * (p[0] - a[0]) >= 0
+
+        def inter(p, q):
+            dx, dy = q[0] - p[0], q[1] - p[1]
+            ex, ey = b[0] - a[0], b[1] - a[1]
+            den = dx * ey - dy * ex
+            t = ((a[0] - p[0]) * ey - (a[1] - p[1]) * ex) / den if den else 0.0
+            return (p[0] + t * dx, p[1] + t * dy)
+        for j in range(len(inp)):
+            p, q = inp[j - 1], inp[j]
+            if inside(q):
+                if not inside(p):
+                    out.append(inter(p, q))
+                out.append(q)
+            elif inside(p):
+                out.append(inter(p, q))
+    return out
+
+
+def _area(vs):
+    return sum(vs[i][0] * vs[(i + 1) % len(vs)][1] - vs[(i + 1) % len(vs)][0] * vs[i][1] for i in range(len(vs))) / 2 if len(vs) >= 3 else 0.0
+
+
+def overlap(tup):
+    """planar area the child's pentagon shares with its parent's, as a fraction of the child's area (depth 1): the real
+    get_pentagon_vertices places both from the enumerated (k, flips) and the relative anchor displacement."""
+    from a5.core.hilbert import Anchor
+    from a5.core.tiling import get_pentagon_vertices
+    di, dj, fcx, fcy, fpx, fpy, kc, kp = tup
+    par = get_pentagon_vertices(0, 0, Anchor(kp, (0.0, 0.0), (fpx, fpy))).get_vertices()
+    chi = get_pentagon_vertices(1, 0, Anchor(kc, (float(di), float(dj)), (fcx, fcy))).get_vertices()
+    if _area(par) < 0:
+        par = par[::-1]
+    if _area(chi) < 0:
+        chi = chi[::-1]
+    inter = _clip(chi, par)
+    return abs(_area(inter)) / abs(_area(chi))
+
+
+MIN_OVERLAP = 0.02     # a child's pentagon shares at least 2% of its area with its parent's (measured minimum on the pinned tree: 6.5%)
+
+
 def _iv(x):
     return x.i if isinstance(x, sf.SymFInt) else (int(x) if isinstance(x, float) else x)
 
@@ -142,9 +195,21 @@ def h_local(c, o, k=1, level=None):
     worst = 0.0
     lim = R_LIMIT[k]
     ob = c.stats.ob("planar-ratio(depth %d)<=%.2f" % (k, lim))
+    ob2 = c.stats.ob("child-pentagon-overlaps-parent-pentagon") if k == 1 else None
     for tup, inputs in tuples:
         r = ratio(tup, consts, k)
         worst = max(worst, r)
+        if k == 1:
+            ov = overlap(tup)
+            ob2["paths"] += 1
+            if ov < MIN_OVERLAP:
+                ob2["sat"] += 1
+                if len(c.counterexamples) < 4:
+                    c.counterexamples.append({"label": "child-pentagon-overlaps-parent-pentagon", "inputs": inputs,
+                                              "info": {"candidate": True, "overlap": ov, "tuple": list(tup), "o": o}})
+            else:
+                ob2["trivial"] += 1
+            c.__dict__["min_overlap"] = min(c.__dict__.get("min_overlap", 1.0), ov)
         ob["paths"] += 1
         if r > lim:
             ob["sat"] += 1
@@ -156,7 +221,8 @@ def h_local(c, o, k=1, level=None):
     ex = c.__dict__.setdefault("extra_sets", set())
     ex.update(t for t, _ in tuples)
     prev = getattr(c, "extra", None) or {}
-    c.extra = {"kind": "L", "o": o, "k": k, "worst": max(worst, prev.get("worst", 0.0)), "tuples": sorted(ex) if k == 1 else []}
+    c.extra = {"kind": "L", "o": o, "k": k, "worst": max(worst, prev.get("worst", 0.0)), "tuples": sorted(ex) if k == 1 else [],
+               "min_overlap": c.__dict__.get("min_overlap")}
 
 
 # ---------------------------------------------------------------------------------- (S)
@@ -270,10 +336,12 @@ def extra_coverage(tier, results):
             k = ex.get("k", 1)
             worst[k] = max(worst.get(k, 0.0), ex.get("worst", 0.0))
     bound = (worst.get(3, 0.0) + worst.get(1, 0.0) / 4) if 3 in worst else 2 * worst.get(1, 0.0)
+    mins = [r["extra"]["min_overlap"] for r in results if r.get("extra") and r["extra"].get("min_overlap") is not None]
     return {"one_level_set_sizes_from_lemma": nl, "one_level_set_sizes_from_real_composition": nv,
             "real_composition_tuples_not_in_lemma_set": len(miss),
             "max_planar_ratio_by_depth": {str(k): round(v, 4) for k, v in sorted(worst.items())},
-            "measured_planar_bound_any_depth(R3+R1/4)": round(bound, 4), "certified_limit": PLANAR_BOUND}
+            "measured_planar_bound_any_depth(R3+R1/4)": round(bound, 4), "certified_limit": PLANAR_BOUND,
+            "min_child_parent_pentagon_overlap": round(min(mins), 4) if mins else None}
 
 
 _PRE = """
@@ -304,9 +372,30 @@ def check(o, hs, ss):
 """
 
 
+_OVERLAP_REPLAY = """
+import sys
+sys.path.insert(0, %r)
+from checks.c07_geom import clip_area
+from a5.core.hilbert import s_to_anchor
+from a5.core.tiling import get_pentagon_vertices
+def bad(sig):
+    print("REPRODUCED " + sig); sys.exit(1)
+o = %r
+for h in (2, 3, 4, 5, 6):
+    for s in range(4 ** h):
+        c = get_pentagon_vertices(h, 0, s_to_anchor(s, h, o)).get_vertices()
+        p = get_pentagon_vertices(h - 1, 0, s_to_anchor(s >> 2, h - 1, o)).get_vertices()
+        if clip_area(c, p) < 0.02: bad("child-pentagon-disjoint-from-parent:level=%%d,%%s" %% (h, o))
+print("ok")
+"""
+
+
 def replay(cx):
     p, inp = cx["params"], cx["inputs"]
     o = p.get("o") or (cx.get("info") or {}).get("o")
+    if cx["label"] == "child-pentagon-overlaps-parent-pentagon":
+        from .common import VERIF
+        return {"script": _OVERLAP_REPLAY % (VERIF, o), "description": "child pentagon vs parent pentagon (orientation %s)" % o, "candidate": True}
     if cx["func"] == "h_reversal":
         script = _PRE + """
 import random
